@@ -102,9 +102,13 @@ def check_read(stored, a, b, limit, got):
             probs.append(("returned-outside-window", f"id {i} [{stored[i][0]},{stored[i][1]}] lies outside window [{a},{b}]"))
         s, t, data = stored[i]
         gs, gt = g[1], g[1] + g[2]
-        ok_s = gs == s or (a is not None and gs > s and abs(gs - a) <= DELTA)
-        ok_t = gt == t or (b is not None and gt < t and abs(gt - b) <= DELTA)
-        if not (ok_s and ok_t and g[3] == data):
+        # either the stored event unchanged, or the stored event CUT TO THE WINDOW: an edge that sticks
+        # out of the window by more than the tolerance must then be cut (a seeded change cut the start
+        # but left the end of an event that sticks out on both sides)
+        unchanged = (gs, gt) == (s, t)
+        ok_s = (gs == s and not (a is not None and s < a - DELTA)) or (a is not None and gs > s and abs(gs - a) <= DELTA)
+        ok_t = (gt == t and not (b is not None and t > b + DELTA)) or (b is not None and gt < t and abs(gt - b) <= DELTA)
+        if not ((unchanged or (ok_s and ok_t)) and g[3] == data):
             probs.append(("altered-event", f"id {i} stored [{s},{t}] {data} returned [{gs},{gt}] {g[3]} for window [{a},{b}]"))
     ts = [g[1] for g in got]
     if any(ts[k] < ts[k + 1] for k in range(len(ts) - 1)):
